@@ -1132,6 +1132,11 @@ def run(repo, chk):
     chk.expect((VAR, "demand_var") in site_fns, "R-C01-5b", "demand_var initialises the demand variable from the requested demand", loc(VAR), found=sorted(site_fns))
     chk.floor("R-C01-5b", 8)
 
+    # ---------------------------------------------------------------- R-C01-7 every node's balance row and parameters are built from that node's own data
+    B.check_loop_independence(repo, chk, "R-C01-7", [(CON, "mass_balance_constraint.build"), (CON, "pdd_mass_balance_constraint.build"), (PAR, "expected_demand_param"),
+                                                    (PAR, "source_head_param"), (PAR, "elevation_param.build"), (VAR, "head_var"), (VAR, "demand_var")], "node")
+    chk.floor("R-C01-7", 7)
+
     # ---------------------------------------------------------------- R-C01-5f one pattern clock for every time series evaluated in wntr.sim
     # EPANET offsets EVERY pattern by options.time.pattern_start.  Every `<obj>.at(t)` call in wntr.sim (head / demand / speed time series, patterns)
     # whose time argument depends on the simulation clock must therefore pass sim_time + pattern_start -- the same clock at every site.  The time
@@ -1286,6 +1291,8 @@ def run(repo, chk):
 
 
 WITNESSES = [
+    dict(name="balance-expression-carried-from-the-previous-junction", file=CON, old="            if not node._is_isolated:\n                expr = m.expected_demand[node_name]\n",
+         new="            if node_name in m.expected_demand:\n                expr = m.expected_demand[node_name]\n            if not node._is_isolated:\n", rule="R-C01-7"),
     dict(name="single-value-pattern-never-expires", file=ELEM, old="        if nmult == 1 and self.wrap:", new="        if nmult == 1:", rule="R-C01-5a"),
     dict(name="refresh-skips-unpatterned-junctions", file="wntr/sim/models/param.py",
          old="        for node_name, node in wn.junctions():\n            m.expected_demand[node_name].value =",
